@@ -27,18 +27,9 @@ func zzC13Good(name string, withPolicy bool) []parser.K8sObject {
 	return objs
 }
 
-// a document the analysis cannot survive: a NetworkPolicy whose ipBlock is not a CIDR (a fatal error of the list analysis)
-func zzC13Fatal() *resource.Info {
-	np := zzNetpolObj("ns1", "np-fatal", netv1.NetworkPolicySpec{
-		PodSelector: metav1.LabelSelector{MatchLabels: map[string]string{"app": "b"}},
-		Ingress:     []netv1.NetworkPolicyIngressRule{{From: []netv1.NetworkPolicyPeer{{IPBlock: &netv1.IPBlock{CIDR: "not-a-cidr"}}}}},
-	})
-	return zzInfo(parser.NetworkPolicy, "networking.k8s.io/v1", np.NetworkPolicy)
-}
-
 type zzDiffRow struct {
 	key, c1, c2 string
-	typ        DiffTypeStr
+	typ         DiffTypeStr
 }
 
 func zzDiffRows(d ConnectivityDiff) []zzDiffRow {
